@@ -184,28 +184,36 @@ func apiUnits(tier string, oracles ...txnOracle) []Unit {
 	var units []Unit
 	init := []txProg{rw("C", "wx")}
 	type plan struct {
-		name   string
-		cfg    dbCfg
-		k      int // transactions
-		maxOps int
-		disc   bool
-		eager  bool
+		name    string
+		cfg     dbCfg
+		k       int // transactions
+		maxOps  int
+		disc    bool
+		eager   bool
+		settled bool
+		reopen  bool
 	}
 	var plans []plan
 	if tier == "quick" {
 		plans = []plan{
-			{"api/2txn/ops<=2/mem-only", cfgTxnMem, 2, 2, true, false},
-			{"api/3txn/ops<=1/mem-only", cfgTxnMem, 3, 1, false, false},
-			{"api/2txn/ops<=1/rotate-always/eager", cfgTxnRotate, 2, 1, false, true},
+			{"api/2txn/ops<=2/mem-only", cfgTxnMem, 2, 2, true, false, false, false},
+			{"api/3txn/ops<=1/mem-only", cfgTxnMem, 3, 1, false, false, false, false},
+			{"api/2txn/ops<=1/rotate-always/eager", cfgTxnRotate, 2, 1, false, true, false, false},
+			{"api/2txn/ops<=2/mem-only/settled", cfgTxnMem, 2, 2, false, false, true, false},
+			{"api/2txn/ops<=2/mem-only/reopened", cfgTxnMem, 2, 2, false, false, false, true},
 		}
 	} else {
 		plans = []plan{
-			{"api/2txn/ops<=3/mem-only", cfgTxnMem, 2, 3, false, false},
-			{"api/2txn/ops<=2/mem-only", cfgTxnMem, 2, 2, true, false},
-			{"api/3txn/ops<=1/mem-only", cfgTxnMem, 3, 1, true, false},
-			{"api/2txn/ops<=2/rotate-always/eager", cfgTxnRotate, 2, 2, false, true},
-			{"api/3txn/ops<=1/rotate-always/eager", cfgTxnRotate, 3, 1, false, true},
-			{"api/2txn/ops<=2/unbuffered", cfgTxnUnbuf, 2, 2, false, false},
+			{"api/2txn/ops<=3/mem-only", cfgTxnMem, 2, 3, false, false, false, false},
+			{"api/2txn/ops<=2/mem-only", cfgTxnMem, 2, 2, true, false, false, false},
+			{"api/3txn/ops<=1/mem-only", cfgTxnMem, 3, 1, true, false, false, false},
+			{"api/2txn/ops<=2/rotate-always/eager", cfgTxnRotate, 2, 2, false, true, false, false},
+			{"api/3txn/ops<=1/rotate-always/eager", cfgTxnRotate, 3, 1, false, true, false, false},
+			{"api/2txn/ops<=2/unbuffered", cfgTxnUnbuf, 2, 2, false, false, false, false},
+			{"api/2txn/ops<=2/mem-only/settled", cfgTxnMem, 2, 2, true, false, true, false},
+			{"api/3txn/ops<=1/mem-only/settled", cfgTxnMem, 3, 1, false, false, true, false},
+			{"api/2txn/ops<=2/mem-only/reopened", cfgTxnMem, 2, 2, true, false, false, true},
+			{"api/3txn/ops<=1/mem-only/reopened", cfgTxnMem, 3, 1, false, false, false, true},
 		}
 	}
 	for _, pl := range plans {
@@ -242,7 +250,7 @@ func apiUnits(tier string, oracles ...txnOracle) []Unit {
 							for i, x := range idx {
 								tuple[i] = progs[x]
 							}
-							exploreAPI(c, pl.cfg, init, tuple, pl.eager, oracles...)
+							exploreAPI(c, pl.cfg, init, tuple, pl.eager, pl.settled, pl.reopen, oracles...)
 							return
 						}
 						// transactions other than the first are interchangeable: non-decreasing indices
@@ -285,7 +293,7 @@ func init() {
 			"transactions; oracle: some commit order consistent with real time and, per transaction, one admissible prefix of it (all commits returned before Begin was called, none called after Begin returned) overlaid with own writes explains every Get. " +
 			"non-trivial: executions in which two transactions overlapped in time, distinct by observed values",
 		Assumptions: txnAssumptions,
-		QuickS:      75, ThoroughS: 1800,
+		QuickS:      110, ThoroughS: 1800,
 	}
 	Props["C06"] = &PropMeta{
 		Units: func(t string) []Unit {
@@ -294,7 +302,7 @@ func init() {
 		Rule: "same executions as C05; oracle: the committed transactions plus all transactions that only read have a serial order respecting real time (a before b when a finished before b began) in which every Get returns what " +
 			"the preceding transactions wrote, decided by a brute-force permutation search and cross-checked on every history with porcupine (one operation per transaction on a key-value map model); the final read-only transaction ties the final state to the witness order",
 		Assumptions: txnAssumptions,
-		QuickS:      75, ThoroughS: 1800,
+		QuickS:      110, ThoroughS: 1800,
 	}
 	Props["C07"] = &PropMeta{
 		Units: func(t string) []Unit {
@@ -304,6 +312,6 @@ func init() {
 			"admissible snapshot that explain the reads, Commit returned the conflict error exactly when a committed transaction after the snapshot and before this commit wrote a key this transaction read from the store; " +
 			"transactions that wrote nothing are never refused; a refused transaction leaves no trace (later reads)",
 		Assumptions: txnAssumptions,
-		QuickS:      75, ThoroughS: 1800,
+		QuickS:      110, ThoroughS: 1800,
 	}
 }
